@@ -1261,6 +1261,15 @@ def _nas_cases(rnd, table, shapes, tier):
                     opt.append({"iei": rj[0], "v": v})
                 cases.append({"id": idn, "kind": "msg", "name": name, "hdr": hdr, "mand": mand, "opt": opt, "perm": list(range(1, len(opt) + 1))})
                 idn += 1
+                if L in (256, 261) and len(opt) > 1:
+                    # the same message with its optional IEs in reverse order: a long two-octet-length IE now precedes the one-octet-length ones
+                    cases.append({"id": idn, "kind": "msg", "name": name, "hdr": hdr, "mand": mand, "opt": opt, "perm": list(range(len(opt), 0, -1))})
+                    idn += 1
+                    # ... and with the long IE moved to the front, everything else behind it in table order
+                    pos = 1 + [x["iei"] for x in opt].index(row[0])
+                    cases.append({"id": idn, "kind": "msg", "name": name, "hdr": hdr, "mand": mand, "opt": opt,
+                                  "perm": [pos] + [q for q in range(1, len(opt) + 1) if q != pos]})
+                    idn += 1
     # the same sweep for the mandatory LV / LV-E information elements (5GS mobile identity, ABBA, EAP message, payload container ...)
     for name in sorted(table):
         t = table[name]
